@@ -184,7 +184,10 @@ def onObs (o : Oracle) (op : List String) (cmdAfter : List String)
     let d := decl o x
     -- C01: every dependency that was found registered must have met its condition
     let gate := (d.deps.filterMap fun (k, c) =>
-      if o.found.contains (x, k) && !gateMet o k c then
+      -- a dependency that had an instance in this run and has ended (finished, failed, skipped) without
+      -- meeting the condition was scheduled to run just the same, whether or not it is still registered
+      let endedBadly := lookupD o.seenSeq k 0 > 0 && isTerminal (lookupD o.status k "") && !(o.ovNames.contains k)
+      if (o.found.contains (x, k) || endedBadly) && !gateMet o k c then
         some ([s!"C01:launch-before-condition {x} needs {k}:{c}"] ++
           -- the dependency has ended or was stopped without satisfying the condition: C05 demands a skip
           (if o.doneEver.contains k || o.everStopped.contains k || o.stopBegun.contains k then
